@@ -290,14 +290,14 @@ def guard_no_ops(doc: dict, layout: tuple) -> bool:          # F01e
 
 
 def nested_self_refs(name: str, s: Any, depth: int = 0):
-    """$refs to `name` that sit inside an inline object below a property (such inline objects become modules of
-    their own, so the self reference is a two-module cycle)"""
+    """$refs to `name` that sit inside a promotable inline property schema of `name` (an inline object / map / union
+    below a property becomes a module of its own, so the self reference is a two-module cycle)"""
     if isinstance(s, dict):
-        if isinstance(s.get("$ref"), str) and s["$ref"].endswith("/" + name) and depth >= 2:
-            yield True
         for k, v in s.items():
             if k == "properties" and isinstance(v, dict):
                 for ps in v.values():
+                    if promotable(ps) and any(r == name for r in refs_in(ps)):
+                        yield True
                     yield from nested_self_refs(name, ps, depth + 1)
             elif isinstance(v, (dict, list)):
                 yield from nested_self_refs(name, v, depth)
@@ -377,16 +377,26 @@ def guard_inline_name_collision(doc: dict, layout: tuple) -> bool:   # F01i
 STREAMING = ("application/octet-stream", "text/event-stream", "application/x-ndjson")
 
 
-def is_streaming(ct: str, media: Any) -> bool:
+def is_streaming(ct: str, media: Any, doc: dict | None = None) -> bool:
     sch = media.get("schema") if isinstance(media, dict) else None
+    declared = ((doc or {}).get("components") or {}).get("schemas") or {}
+    for _ in range(5):     # follow $ref / array items to a declared binary string
+        if isinstance(sch, dict) and isinstance(sch.get("$ref"), str):
+            sch = declared.get(sch["$ref"].rsplit("/", 1)[-1])
+        elif isinstance(sch, dict) and sch.get("type") == "array":
+            sch = sch.get("items")
+        else:
+            break
     return ct in STREAMING or (isinstance(sch, dict) and sch.get("format") == "binary")
 
 
 def guard_stream_plus_body(doc: dict, layout: tuple) -> bool:   # F01g
+    """an operation with a streaming response and, besides it, a response with a non-streaming body or another 2xx
+    response (even one without a body: `return None` in an async generator is a SyntaxError too)"""
     for _, _, _, op in ops_of(doc):
-        kinds = [is_streaming(ct, mt) for r in (op.get("responses") or {}).values() if isinstance(r, dict)
-                 for ct, mt in (r.get("content") or {}).items()]
-        if any(kinds) and not all(kinds):
+        resp = {str(c): r for c, r in (op.get("responses") or {}).items() if isinstance(r, dict)}
+        kinds = [is_streaming(ct, mt, doc) for r in resp.values() for ct, mt in (r.get("content") or {}).items()]
+        if any(kinds) and (not all(kinds) or sum(1 for c in resp if c.startswith("2")) >= 2):
             return True
     return False
 
